@@ -359,13 +359,33 @@ class Program:
         self.adts = {}
         self.crates = []
         self.nonces = {}
-        for fn in sorted(os.listdir(factdir)):
-            if not fn.endswith('.json'):
-                continue
-            cname = fn[:-5]
-            if crates and cname not in crates:
-                continue
-            d = json.load(open(os.path.join(factdir, fn)))
+        import pickle
+        raw = None
+        pk = os.path.join(factdir, '.parsed.pickle')
+        if crates is None and os.path.exists(pk):
+            try:
+                with open(pk, 'rb') as fh:
+                    raw = pickle.load(fh)
+            except Exception:
+                raw = None
+        if raw is None:
+            raw = []
+            for fn in sorted(os.listdir(factdir)):
+                if not fn.endswith('.json'):
+                    continue
+                cname = fn[:-5]
+                if crates and cname not in crates:
+                    continue
+                raw.append(json.load(open(os.path.join(factdir, fn))))
+            if crates is None:
+                try:
+                    tmp = pk + '.%d' % os.getpid()
+                    with open(tmp, 'wb') as fh:
+                        pickle.dump(raw, fh, protocol=pickle.HIGHEST_PROTOCOL)
+                    os.replace(tmp, pk)
+                except Exception:
+                    pass
+        for d in raw:
             self.crates.append(d['crate'])
             self.nonces[d['crate']] = d.get('nonce')
             for f in d['fns']:
